@@ -4,6 +4,11 @@ C06 — model of the flow-direction routines of hydrodiy:
 `c_delineate_flowpathlengths_in_catchment` (c_catchment.c) and the hole-filling arithmetic of
 `Catchment.delineate_area` (grid.py).
 
+Also here (round 7): the call with its defaults (`delineateAreaPy`), the definitions the theorems are STATED with —
+`Bfs.walk`, `downStep`, `Reaches`, `chainCell`, `chainSteps`, `chainCells`, `GoesOn`, `reachArea` (the area by brute
+force over the grid), `countBy` — so that the driver runs them against the real code too, and the read-only calls of a
+`Catchment` object (`HistQuery`, `histQuery`) interleaved with the state-changing ones (`HistCall`, `callRun`).
+
 No Mathlib. Everything is total and computable. The integer grid core (cell <-> (row, col), `validCell`,
 `neighbour k`) is imported from `Model/C07.lean`; the direction-code table the Python side passes to the
 kernels is `HydroVerif.Generated.FlowDir.codes`, regenerated from `grid.py` on every run — the functions
@@ -310,6 +315,81 @@ def chainCyclic (codes : List Int) (g : FlowGrid) (start : Int) : Bool :=
 def flowPathCapped (codes : List Int) (g : FlowGrid) (outlet : Int) (nval : Nat) (start : Int) : Bool :=
   (fpLoop codes g outlet (isDiag g.ncols) nval { ipath := 0, up := start, down := -1, steps := [] }).ipath == nval
 
+/-! ## the downstream chain as such, and the area as a reachability set
+
+What the theorems of `Props/C06.lean` state the results WITH (their right-hand sides). They are ordinary
+executable definitions: the driver runs them (`chain`, `reach` requests) and the harness compares them with
+the real code — iterated `Catchment.downstream` calls, `idxcells_area` — like every other model function. -/
+
+namespace Bfs
+/-- k-fold downstream walk over an abstract `down` -/
+def walk {C : Type} (down : C → Option C) : Nat → C → Option C
+  | 0, c => some c
+  | k+1, c => (down c).bind (walk down k)
+end Bfs
+
+/-- one step down the chain: defined for a valid cell that is not an inlet and drains to a cell
+(`none` for sinks, exits, invalid codes, inlets, cells off the grid) -/
+def downStep (codes : List Int) (g : FlowGrid) (inlets : List Int) (u : Int) : Option Int :=
+  if validCell g.nrows g.ncols u = true ∧ u ∉ inlets then
+    (if 0 ≤ downstreamCell codes g u then some (downstreamCell codes g u) else none)
+  else none
+
+/-- `c` reaches `o` in exactly `k` steps of the downstream chain, none of the `k` cells it leaves being an
+inlet (or off the grid, a sink, an exit) -/
+def Reaches (codes : List Int) (g : FlowGrid) (inlets : List Int) (k : Nat) (c o : Int) : Prop :=
+  Bfs.walk (downStep codes g inlets) k c = some o
+
+instance (codes : List Int) (g : FlowGrid) (inlets : List Int) (k : Nat) (c o : Int) :
+    Decidable (Reaches codes g inlets k c o) :=
+  inferInstanceAs (Decidable (Bfs.walk (downStep codes g inlets) k c = some o))
+
+/-- the cell `k` steps down the chain from `c` (meaningful while the chain stays on the grid) -/
+def chainCell (codes : List Int) (g : FlowGrid) : Nat → Int → Int
+  | 0, c => c
+  | k + 1, c => chainCell codes g k (downstreamCell codes g c)
+
+/-- the classification (`true` = diagonal) of the first `k` steps of the chain from `c` -/
+def chainSteps (codes : List Int) (g : FlowGrid) (diag : Int → Int → Bool) : Nat → Int → List Bool
+  | 0, _ => []
+  | k + 1, c => diag c (downstreamCell codes g c) :: chainSteps codes g diag k (downstreamCell codes g c)
+
+/-- cells of the river: the chain from the start, cut after the first cell that drains nowhere -/
+def chainCells (codes : List Int) (g : FlowGrid) : Nat → Int → List Int
+  | 0, _ => []
+  | n + 1, c => c :: (if downstreamCell codes g c < 0 then [] else chainCells codes g n (downstreamCell codes g c))
+
+/-- "iteration `i` of the flow-path walk from `c` goes on": the cell it stands on is a cell of the grid, drains to a
+cell, and that cell is not the outlet -/
+def GoesOn (codes : List Int) (g : FlowGrid) (outlet c : Int) (i : Nat) : Prop :=
+  validCell g.nrows g.ncols (chainCell codes g i c) = true ∧ 0 ≤ chainCell codes g (i + 1) c ∧
+    chainCell codes g (i + 1) c ≠ outlet
+
+instance (codes : List Int) (g : FlowGrid) (outlet c : Int) (i : Nat) : Decidable (GoesOn codes g outlet c i) := by
+  unfold GoesOn; infer_instance
+
+/-- how many iterations go on before the first one that does not, among the first `n` -/
+def goesOnCount (codes : List Int) (g : FlowGrid) (outlet c : Int) (n : Nat) : Nat :=
+  ((List.range n).takeWhile fun i => decide (GoesOn codes g outlet c i)).length
+
+/-- `n` counted in the arithmetic of `α` by steps of `step`: `0 + step + … + step` (with `step = 1` the double `n`
+itself for `n < 2^53`: what the length of `n` orthogonal steps is, bit for bit) -/
+def countBy {α : Type} [Add α] [OfNat α 0] (step : α) : Nat → α
+  | 0 => 0
+  | n + 1 => countBy step n + step
+
+/-- the cells of the grid, `0 .. nrows*ncols-1` -/
+def gridCells (g : FlowGrid) : List Int := (List.range (g.nrows * g.ncols).toNat).map fun n : Nat => (n : Int)
+
+/-- **the area as the property states it**, by brute force over the grid: the outlet, provided some cell that
+is not an inlet drains into it, plus every cell whose downstream chain reaches the outlet in `1 .. ncells` steps
+without leaving from an inlet (more steps than the grid has cells would mean a flow cycle through the outlet) -/
+def reachArea (codes : List Int) (g : FlowGrid) (outlet : Int) (inlets : List Int) : List Int :=
+  let drains := (gridCells g).any fun u => decide (Reaches codes g inlets 1 u outlet)
+  (gridCells g).filter fun c =>
+    (decide (c = outlet) && drains) ||
+      (List.range (g.nrows * g.ncols).toNat).any fun k => decide (Reaches codes g inlets (k + 1) c outlet)
+
 /-! ## the Python wrapper around `c_delineate_area`, and the `Catchment` object as a state machine -/
 
 /-- `idxcells = -1*np.ones(nval)` after the kernel wrote `area` into its first entries -/
@@ -327,6 +407,12 @@ def wrapperArea (codes : List Int) (g : FlowGrid) (outlet : Int) (inlets : List 
   match delineateArea codes g outlet inlets nval with
   | .error e => .error e
   | .ok area => .ok (keepCells (areaBuffer nval area))
+
+/-- the call as it is usually made, `Catchment.delineate_area(idxcell_outlet, idxinlets=None, nval=1000000)`:
+`idxinlets=None` is an empty array of inlets, the default buffer has 10^6 entries -/
+def delineateAreaPy (codes : List Int) (g : FlowGrid) (outlet : Int) (inlets : Option (List Int))
+    (nval : Option Int) : Except Err (List Int) :=
+  wrapperArea codes g outlet (inlets.getD []) (nval.getD 1000000)
 
 /-- what a `Catchment` object remembers between calls (as far as this property goes): its own copy of the
 flow-direction grid (`_flowdir`, cloned at construction, editable in place through `catchment.flowdir.data`),
@@ -387,5 +473,78 @@ def gridAfter (g : FlowGrid) : List HistOp → FlowGrid
   | .setCell cell code :: ops => gridAfter { g with fd := fun i => if i = cell then code else g.fd i } ops
   | .setGrid fd :: ops => gridAfter { g with fd := fd } ops
   | _ :: ops => gridAfter g ops
+
+/-! ### read-only calls on the object, interleaved with the others -/
+
+/-- read-only calls: they answer for what the object holds NOW and never change it -/
+inductive HistQuery
+  /-- `c.upstream(cells)` -/
+  | upstream (cells : List Int)
+  /-- `c.downstream(cells)` -/
+  | downstream (cells : List Int)
+  /-- `delineate_river(c.flowdir, start, nval)` -/
+  | river (start nval : Int)
+  /-- the accessor `c.idxcells_area` (raises while no delineation is stored) -/
+  | area
+  /-- `c.isin(cell)` (raises while no delineation is stored) -/
+  | isin (cell : Int)
+
+/-- what a read-only call returns -/
+inductive QueryObs (α : Type)
+  | rows (r : Except Err (List (List Int)))
+  | cells (r : Except Err (List Int))
+  | river (r : Except Err (List (RiverRow α)))
+  | flag (r : Except Err Bool)
+
+section Queries
+variable {α : Type} [Add α] [Mul α] [OfNat α 0] [OfNat α 1] [IntCast α] [Transc α]
+
+/-- the answer of a read-only call in state `s`: the kernels on the grid held now, the stored area -/
+def histQuery (codes : List Int) (s : CatchState) : HistQuery → QueryObs α
+  | .upstream cells =>
+    match mapCells (upstream codes s.grid) cells with
+    | .error e => .rows (.error e)
+    | .ok l => .rows (.ok (l.map upstreamRow))
+  | .downstream cells => .cells (mapCells (downstream codes s.grid) cells)
+  | .river start nval => .river (delineateRiver codes s.grid start nval)
+  | .area =>
+    match s.area with
+    | some a => .cells (.ok a)
+    | none => .cells (.error .noArea)
+  | .isin cell =>
+    match s.area with
+    | some a => .flag (.ok (decide (cell ∈ a)))
+    | none => .flag (.error .noArea)
+
+/-- any call made on one object -/
+inductive HistCall
+  | op (o : HistOp)
+  | query (q : HistQuery)
+
+/-- what it returns -/
+inductive CallObs (α : Type)
+  | op (o : HistObs)
+  | query (q : QueryObs α)
+
+/-- one call of either kind: a query leaves the state as it is -/
+def callStep (codes : List Int) (s : CatchState) : HistCall → CatchState × CallObs α
+  | .op o => ((histStep codes s o).1, .op (histStep codes s o).2)
+  | .query q => (s, .query (histQuery codes s q))
+
+/-- a whole interleaved history -/
+def callRun (codes : List Int) : CatchState → List HistCall → CatchState × List (CallObs α)
+  | s, [] => (s, [])
+  | s, c :: cs =>
+    let r : CatchState × CallObs α := callStep codes s c
+    let rest := callRun codes r.1 cs
+    (rest.1, r.2 :: rest.2)
+
+end Queries
+
+/-- the state-changing calls of an interleaved history -/
+def opsOf : List HistCall → List HistOp
+  | [] => []
+  | .op o :: cs => o :: opsOf cs
+  | .query _ :: cs => opsOf cs
 
 end HydroVerif.C06
